@@ -36,11 +36,16 @@ Fixpoint list_eqb (a b : list N) : bool :=
 
 Definition class_ok (k want : N) : bool := (k =? 0) || (k =? want).
 
-Definition check_case (c : case) : bool :=
+(** A case is checked against the hand-written model of Wallet/Seed.v and, when the
+    harness could regenerate them from the current wallet/seed.go (go/ast translator,
+    module SeedGen in the run directory), against the regenerated functions as well:
+    [enc] / [dec] are [encode] / [decode_res] of either. *)
+Definition check_case_with (enc : (N -> N -> N) -> N -> N -> list N)
+                           (dec : (N -> N -> N) -> list token -> dres) (c : case) : bool :=
   match c with
-  | CEnc hi lo c obs => list_eqb (encode (cks_at hi lo c) hi lo) obs
+  | CEnc hi lo c obs => list_eqb (enc (cks_at hi lo c) hi lo) obs
   | CDec ts h0 l0 c obs =>
-      match decode_res (cks_at h0 l0 c) ts, obs with
+      match dec (cks_at h0 l0 c) ts, obs with
       | DOk hi lo, OOk hi' lo' => (hi =? hi') && (lo =? lo')
       | DErrCount, OErr k => class_ok k 1
       | DErrWord, OErr k => class_ok k 2
@@ -49,10 +54,17 @@ Definition check_case (c : case) : bool :=
       end
   end.
 
-Fixpoint mismatches_from (i : N) (cs : list case) : list N :=
+Definition check_case (c : case) : bool := check_case_with encode decode_res c.
+
+Fixpoint mismatches_from (chk : case -> bool) (i : N) (cs : list case) : list N :=
   match cs with
   | [] => []
-  | c :: cs' => if check_case c then mismatches_from (N.succ i) cs'
-                else i :: mismatches_from (N.succ i) cs'
+  | c :: cs' => if chk c then mismatches_from chk (N.succ i) cs'
+                else i :: mismatches_from chk (N.succ i) cs'
   end.
-Definition mismatches := mismatches_from 0.
+
+(** the model of Seed.v alone *)
+Definition mismatches := mismatches_from check_case 0.
+(** the model of Seed.v and another pair of functions; SeedGen shadows [mismatches] with this *)
+Definition mismatches_with enc dec :=
+  mismatches_from (fun c => check_case c && check_case_with enc dec c) 0.
